@@ -33,30 +33,47 @@ theorem replaceByte_nil_cons_eq (x : UInt8) (s : Bytes) :
     replaceByte x [] (x :: s) = replaceByte x [] s := by
   simp [replaceByte]
 
-theorem pkgName_cons_keep (c : UInt8) (s : Bytes) (h1 : c ≠ dot) (h2 : c ≠ dash) :
-    pkgName (c :: s) = lowerByte c :: pkgName s := by
-  simp [pkgName, toLower, replaceByte_nil_cons_ne, h1, h2]
+theorem pkgBase_cons_keep (c : UInt8) (s : Bytes) (h1 : c ≠ dot) (h2 : c ≠ dash) :
+    pkgBase (c :: s) = lowerByte c :: pkgBase s := by
+  simp [pkgBase, toLower, replaceByte_nil_cons_ne, h1, h2]
 
-theorem pkgName_cons_dot (s : Bytes) : pkgName (dot :: s) = pkgName s := by
-  simp [pkgName, replaceByte_nil_cons_eq]
+theorem pkgBase_cons_dot (s : Bytes) : pkgBase (dot :: s) = pkgBase s := by
+  simp [pkgBase, replaceByte_nil_cons_eq]
 
-theorem pkgName_cons_dash (s : Bytes) : pkgName (dash :: s) = pkgName s := by
+theorem pkgBase_cons_dash (s : Bytes) : pkgBase (dash :: s) = pkgBase s := by
   have : dash ≠ dot := by decide
-  simp [pkgName, replaceByte_nil_cons_eq, replaceByte_nil_cons_ne, this]
+  simp [pkgBase, replaceByte_nil_cons_eq, replaceByte_nil_cons_ne, this]
 
-theorem pkgName_tail_chars : ∀ s : Bytes, s.all (fun c => isAlnum c || c == dot || c == dash) = true →
-    (pkgName s).all (fun c => isLower c || isDigit c) = true
+theorem pkgBase_tail_chars : ∀ s : Bytes, s.all (fun c => isAlnum c || c == dot || c == dash) = true →
+    (pkgBase s).all (fun c => isLower c || isDigit c) = true
   | [], _ => rfl
   | c :: s, h => by
     simp only [List.all_cons, Bool.and_eq_true, Bool.or_eq_true, beq_iff_eq] at h
-    have ih := pkgName_tail_chars s h.2
+    have ih := pkgBase_tail_chars s h.2
     rcases h.1 with (ha | hd) | hd
     · obtain ⟨h1, h2, h3⟩ := alnum_facts c ha
-      rw [pkgName_cons_keep c s h1 h2]
+      rw [pkgBase_cons_keep c s h1 h2]
       simp only [List.all_cons, Bool.and_eq_true]
       exact ⟨h3, ih⟩
-    · subst hd; rw [pkgName_cons_dot]; exact ih
-    · subst hd; rw [pkgName_cons_dash]; exact ih
+    · subst hd; rw [pkgBase_cons_dot]; exact ih
+    · subst hd; rw [pkgBase_cons_dash]; exact ih
+
+/-- the package name is the base name, or the base name plus `_` when that is a Go keyword or `main` -/
+theorem pkgName_cases (n : Bytes) :
+    (pkgName n = pkgBase n ∧ pkgBase n ∉ goKeywords ∧ pkgBase n ≠ str "main")
+    ∨ (pkgName n = pkgBase n ++ str "_" ∧ (pkgBase n ∈ goKeywords ∨ pkgBase n = str "main")) := by
+  unfold pkgName
+  by_cases h : (goKeywords.contains (pkgBase n) || pkgBase n == str "main") = true
+  · right
+    simp only [h, if_true, true_and]
+    simpa using h
+  · left
+    simp only [h]
+    simpa using h
+
+/-- `<keyword>_` and `main_` are neither keywords nor `main` -/
+theorem suffixed_not_reserved : ∀ k ∈ str "main" :: goKeywords,
+    k ++ str "_" ∉ goKeywords ∧ k ++ str "_" ≠ str "main" := by decide
 
 theorem lowerOrDigit_identChar : ∀ c : UInt8, (isLower c || isDigit c) = true → isIdentChar c = true := by
   apply forall_uint8
@@ -66,6 +83,54 @@ theorem lower_identStart : ∀ c : UInt8, isLower c = true → isIdentStart c = 
   apply forall_uint8
   set_option maxRecDepth 20000 in decide
 
+
+theorem pkgChar_identChar : ∀ c : UInt8, (isLower c || isDigit c || c == underscore) = true → isIdentChar c = true := by
+  apply forall_uint8
+  set_option maxRecDepth 20000 in decide
+
+/-- for an interface name of the grammar's shape the base name is a lower-case letter followed by lower-case
+    letters and digits -/
+theorem pkgBase_shape (n : Bytes) (h : ifaceNameShape n = true) :
+    ∃ c r, pkgBase n = c :: r ∧ isLower c = true ∧ r.all (fun c => isLower c || isDigit c) = true := by
+  cases n with
+  | nil => simp [ifaceNameShape] at h
+  | cons c s =>
+    simp only [ifaceNameShape, Bool.and_eq_true] at h
+    obtain ⟨h1, h2, h3⟩ := letter_facts c h.1
+    exact ⟨lowerByte c, pkgBase s, pkgBase_cons_keep c s h1 h2, h3, pkgBase_tail_chars s h.2⟩
+
+/-- … and the package name a lower-case letter followed by lower-case letters, digits and underscores -/
+theorem pkgName_shape (n : Bytes) (h : ifaceNameShape n = true) :
+    ∃ c r, pkgName n = c :: r ∧ isLower c = true
+      ∧ r.all (fun c => isLower c || isDigit c || c == underscore) = true := by
+  obtain ⟨c, r, e, hc, hr⟩ := pkgBase_shape n h
+  have hr' : r.all (fun c => isLower c || isDigit c || c == underscore) = true := by
+    rw [List.all_eq_true] at hr ⊢
+    intro x hx
+    simp [hr x hx]
+  rcases pkgName_cases n with ⟨e', _⟩ | ⟨e', _⟩
+  · exact ⟨c, r, e' ▸ e, hc, hr'⟩
+  · refine ⟨c, r ++ str "_", by rw [e', e]; rfl, hc, ?_⟩
+    rw [List.all_append, hr']
+    decide
+
+/-- **the package name is a Go identifier, no keyword and not `main`** -/
+theorem pkgName_usable (n : Bytes) (h : ifaceNameShape n = true) :
+    isGoIdent (pkgName n) = true ∧ pkgName n ∉ goKeywords ∧ pkgName n ≠ str "main" := by
+  refine ⟨?_, ?_⟩
+  · obtain ⟨c, r, e, hc, hr⟩ := pkgName_shape n h
+    rw [e]
+    simp only [isGoIdent, Bool.and_eq_true]
+    refine ⟨lower_identStart c hc, ?_⟩
+    rw [List.all_eq_true] at hr ⊢
+    exact fun x hx => pkgChar_identChar x (hr x hx)
+  · rcases pkgName_cases n with ⟨e, h1, h2⟩ | ⟨e, h1⟩
+    · rw [e]; exact ⟨h1, h2⟩
+    · rw [e]
+      apply suffixed_not_reserved
+      rcases h1 with h1 | h1
+      · exact List.mem_cons_of_mem _ h1
+      · rw [h1]; exact List.mem_cons_self
 
 /-! ## string literals -/
 
@@ -614,7 +679,7 @@ theorem genFile_inv {t : Idl} {f : GoFile} (hf : genFile t = some f) :
       ∧ concatOptL methodReplyView t.methods = some methodReplies
       ∧ concatOptL (dummyView t.name) t.methods = some dummies
       ∧ concatOptL (dispatchCaseView (pkgName t.name)) t.methods = some cases
-      ∧ f = assembleFile t body aliases errors clients ifaceMethods errorReplies methodReplies dummies cases := by
+      ∧ f = assembleFile t aliases errors clients ifaceMethods errorReplies methodReplies dummies cases := by
   unfold genFile at hf
   split at hf
   · rename_i h0 h1 h2 h3 h4 h5 h6 h7 h8
